@@ -94,7 +94,7 @@ func init() {
 func init() {
 	// find: run one seed/profile for a property; on violation minimise and write a replay file
 	extraCmds["find"] = func(args []string) {
-		prop, prof := "C02", "mixed"
+		prop, prof, mode := "C02", "mixed", ""
 		seed := uint64(1)
 		for i := 0; i+1 < len(args); i += 2 {
 			switch args[i] {
@@ -102,11 +102,13 @@ func init() {
 				prop = args[i+1]
 			case "-profile":
 				prof = args[i+1]
+			case "-mode":
+				mode = args[i+1]
 			case "-seed":
 				fmt.Sscan(args[i+1], &seed)
 			}
 		}
-		sp := RunSpec{Seed: seed, Profile: prof, Prop: prop, Fuel: 5_000_000, Stop: true}
+		sp := RunSpec{Seed: seed, Profile: prof, Prop: prop, Fuel: 5_000_000, Stop: true, Mode: mode}
 		res := execSpec(sp, LoadKnown(knownPath()))
 		if len(res.Violations) == 0 {
 			fmt.Println("no violation")
